@@ -10,7 +10,7 @@
    a compile-time panic is a [None] from [compile_*], a run-time panic a [None]
    from the closure. *)
 From Coq Require Import List ZArith NArith Bool.
-From WF Require Import Base.Bytes Sem.RangeSet Lang.Types Lang.Ast Lang.Context.
+From WF Require Import Base.Bytes Sem.RangeSet Sem.Matchers Lang.Types Lang.Ast Lang.Context.
 Import ListNotations.
 
 Definition M (A : Type) := option A.
@@ -204,14 +204,24 @@ Definition comparer := value -> ctx -> M bool.
 Definition cmp_fn (sch : scheme) (op : cmpop) : comparer * bool :=
   match op with
   | CIsTrue => (fun v _ => cast_bool v, false)
-  | COrd o (RBytes b) => (fun v _ => x <- cast_bytes v ;; Some (bytes_op o x b),
+  | COrd o (RBytes b _) => (fun v _ => x <- cast_bytes v ;; Some (bytes_op o x b),
                           match o with ONe => sc_nil_ne sch | _ => false end)
   | COrd o (RInt z) => (fun v _ => x <- cast_int v ;; Some (int_op o x z),
                         match o with ONe => sc_nil_ne sch | _ => false end)
   | COrd o (RIp a) => (fun v _ => x <- cast_ip v ;; Some (ord_matches_opt o (ip_strict_cmp x a)),
                        match o with ONe => sc_nil_ne sch | _ => false end)
   | CBitAnd z => (fun v _ => x <- cast_int v ;; Some (negb (Z.land x z =? 0)%Z), false)
-  | CContains p => (fun v _ => x <- cast_bytes v ;; Some (occurs p x), false)
+  | CContains p _ => (fun v _ => x <- cast_bytes v ;; Some (occurs p x), false)
+  | CMatches pat _ =>
+      match regex_compile pat with
+      | Some r => (fun v _ => x <- cast_bytes v ;; Some (regex_run r x), false)
+      | None => (fun _ _ => None, false)           (* pattern outside the modelled subset *)
+      end
+  | CWildcard strict pat _ =>
+      match wparse pat with
+      | Some t => (fun v _ => x <- cast_bytes v ;; Some (wmatch strict t x), false)
+      | None => (fun _ _ => None, false)           (* never constructed: Wildcard::new fails at parse time *)
+      end
   | COneOfInt l =>
       let set := rangeset_from l in
       (fun v _ => x <- cast_int v ;; rangeset_contains set x, false)
@@ -221,7 +231,7 @@ Definition cmp_fn (sch : scheme) (op : cmpop) : comparer * bool :=
       let v6 := rangeset_from (snd sets) in
       (fun v _ => x <- cast_ip v ;;
                   match x with V4 a => rangeset_contains v4 a | V6 a => rangeset_contains v6 a end, false)
-  | COneOfBytes l => (fun v _ => x <- cast_bytes v ;; Some (existsb (bytes_eqb x) l), false)
+  | COneOfBytes l => (fun v _ => x <- cast_bytes v ;; Some (existsb (bytes_eqb x) (map fst l)), false)
   | CInList li name =>
       (fun v c => m <- nth_error (cx_lists c) li ;; Some (match_value m name v), false)
   end.
